@@ -13,7 +13,7 @@ META = {
    note="x86-TSO for native runs; Miri's weak-memory emulation is sampled; windows are widened at hook sites, and the owner's own calls are also interrupted by a real delivery at single instructions (trap-flag stepping from each writer-side hook arrival)"),
  "C02": dict(engine="native", category="exploration",
    technique="runtime monitoring: event log (CALL/RET of owner ops, DISPATCH_ENTER/EXIT, action tags) checked offline against the per-signal sequence of registry states",
-   text="Each dispatch bracket's run list must equal exactly one registry state that can have been current during the bracket; tens of thousands of brackets overlap an owner operation per run, including deliveries nested on the owner at every writer failpoint and at individual instructions after them (trap-flag stepping).",
+   text="Each dispatch bracket's run list must equal exactly one registry state that can have been current during the bracket; tens of thousands of brackets overlap an owner operation per run, including deliveries nested on the owner at every writer failpoint and at individual instructions after them (trap-flag stepping). Deliveries parked inside their read section while a writer registers, removes or first-registers a never-seen signal (two publications): the writer must not return, i.e. release their snapshot, while they are inside.",
    note="exactness limited to single-owner signals; definitely-before relations on one SeqCst counter only"),
 }
 META.update({
@@ -87,7 +87,7 @@ META.update({
 META.update({
  "C03": dict(engine="native forked probes + strace + counting allocator", category="fault_enumeration",
    technique="failpoint freeze sweep (operator thread parked at every site while deliveries of every built-in action set run on another thread and nested on the same thread, step counts compared with an interference-free baseline, /proc stuck-state probe) + strace syscall allow-list per delivery bracket + counting global allocator under real-signal stress",
-   text="234 (operation, variant, site, occurrence) points and 1170 deliveries in every run; every delivery must finish and pass exactly the baseline number of failpoints; strace shows only write/sendto inside handlers; zero heap operations inside millions of dispatches.",
+   text="234 (operation, variant, site, occurrence) points and 1170 deliveries in every run; every delivery must finish and pass exactly the baseline number of failpoints; strace shows only write/sendto inside handlers; zero heap operations inside millions of dispatches. Three-party state: deliveries parked in the dispatcher, a writer waiting for them inside the first registration of another signal, further deliveries sent then must reach their snapshot and none may sleep in futex.",
    note="boundaries = failpoints deterministically, arbitrary instructions only for the allocator monitor"),
  "C18": dict(engine="native", category="exploration",
    technique="runtime monitoring: gate-orchestrated schedules with the writer's own barrier iterations as the clock, offline log rule on HL_B_SPIN vs bracket exits, stable-stuck-state probe at quiescent points of a free-running mutator mix",
